@@ -277,4 +277,7 @@ def run(facts, tier, ctx):
         im.notes.append("not summarised (no implicit sites decided in it): %s: %s" % (bid, why[:100]))
     im.require_floor(60, "implicit panic sites")
     out.append(im)
+    # "serialises ... to exactly the number of bits it reports": the C08 effect rules
+    from . import c08
+    out += c08.size_rules(facts)
     return out
